@@ -273,4 +273,159 @@ Section Sound.
       rewrite (Hout_assets _ I' p n).
       unfold burn_class in Hb. cbn [strategy_eqb negb andb] in Hb. rewrite (no_asset_qty _ Hb). lia.
   Qed.
+
+  (* ----------------------------------------------------------------------------------------- *)
+  (* Largest-first at the level of add_inputs_from (strategy LargestFirst), when more lovelace is needed than the
+     builder already holds (so that the "at least one input" pre-step does not fire) *)
+
+  Lemma initial_trace sc st0 : initial_state min_fee sc = (st0, Done tt) -> st_trace st0 = [] /\ st_inputs st0 = imap_of_list (sc_pre sc).
+  Proof.
+    unfold initial_state. intros H.
+    destruct (total_input sc (imap_of_list (sc_pre sc))); cbn [of_result obind] in H; try discriminate H.
+    match type of H with obind _ (of_result ?r) _ = _ => destruct r end; cbn [of_result obind] in H; try discriminate H.
+    inversion H; subst. split; reflexivity.
+  Qed.
+
+  Lemma lf_top_unfold cs offered sc st0 st' r :
+    initial_state min_fee sc = (st0, Done tt) -> coin (st_in st0) < coin (st_out st0) ->
+    add_inputs_from min_fee ffi current LargestFirst cs offered sc = (st', r) ->
+    (outputs_have_assets sc = true /\ st' = st0 /\ r = Failed) \/
+    (outputs_have_assets sc = false /\ exists r', lf_by ffi ByCoin offered (seq 0 (length offered)) st0 = (st', r') /\
+                                               r = ob r' (fun _ => Done tt)).
+  Proof.
+    intros E0 Hlt H. unfold add_inputs_from in H. rewrite E0 in H. cbn [obind] in H.
+    unfold prestep in H. apply N.leb_gt in Hlt. rewrite Hlt in H. cbn [andb obind] in H.
+    unfold run_strategy in H. destruct (outputs_have_assets sc).
+    - left. inversion H; subst. auto.
+    - right. split; auto. unfold drop_locals in H.
+      destruct (lf_by ffi ByCoin offered (seq 0 (length offered)) st0) as [st2 r2]. inversion H; subst. eauto.
+  Qed.
+
+  Lemma has_key_coin offered j : has_key ByCoin offered j = true <-> (j < length offered)%nat.
+  Proof.
+    unfold has_key. destruct (nth_error offered j) as [u|] eqn:E.
+    - cbn. split; auto. intros _. apply nth_error_Some. congruence.
+    - split; [discriminate|]. intros Hj. apply nth_error_None in E. lia.
+  Qed.
+
+  Theorem lf_order_top cs offered sc st0 st' r :
+    initial_state min_fee sc = (st0, Done tt) -> coin (st_in st0) < coin (st_out st0) ->
+    add_inputs_from min_fee ffi current LargestFirst cs offered sc = (st', r) ->
+    desc_sorted (key_of ByCoin offered) (st_trace st') /\
+    (forall i, In i (st_trace st') -> (i < length offered)%nat) /\
+    (forall i j, In i (st_trace st') -> (j < length offered)%nat -> ~ In j (st_trace st') ->
+                 key_of ByCoin offered j <= key_of ByCoin offered i).
+  Proof.
+    intros E0 Hlt H. destruct (initial_trace _ _ E0) as [Ht0 _].
+    destruct (lf_top_unfold _ _ _ _ _ _ E0 Hlt H) as [[_ [-> _]]|[_ [r' [Hlf _]]]].
+    - rewrite Ht0. conj; [constructor|intros i []|intros i j []].
+    - destruct (largest_first_order ffi offered offered (fun _ _ E => E) _ _ _ _ _ Hlf) as [taken [Htr [S1 [S2 S3]]]].
+      rewrite Ht0 in Htr. cbn [app] in Htr. rewrite Htr. conj; auto.
+      + intros i Hi. apply has_key_coin. apply S2. exact Hi.
+      + intros i j Hi Hj Hnj. apply S3; auto. apply in_seq. lia. apply has_key_coin. exact Hj.
+  Qed.
+
+  Lemma sound_setup offered sc st0 :
+    scenario_wf offered sc -> distinct_outpoints offered sc ->
+    initial_state min_fee sc = (st0, Done tt) ->
+    exists it0 ot0 f0, let m0 := imap_of_list (sc_pre sc) in
+      st0 = mkSt m0 it0 ot0 [] /\ min_fee m0 = Ok f0 /\
+      (forall s, Q s it0 = sumQ s (map u_val m0) + Q s (sc_implicit sc) + Q s (sc_mint sc)) /\
+      (forall s, Q s ot0 = demand s sc f0) /\
+      Inv ffi offered m0 it0 ot0 st0.
+  Proof.
+    intros Hwf Hd E0.
+    assert (Hnd_pre : NoDup (ids (sc_pre sc))) by (eapply NoDup_app_r; eauto).
+    destruct (initial_ok _ _ _ Hwf Hnd_pre E0) as [it0 [ot0 [f0 [Hst0 [Wi [Wo [Hf [Qi0 Qo0]]]]]]]].
+    exists it0, ot0, f0. cbn zeta in *. conj; auto.
+    subst st0. constructor; cbn [st_inputs st_in st_out st_trace added_utxos flat_map insert_all fold_left map]; auto.
+    - exists 0. split; [reflexivity|]. intros s. destruct s; cbn [coin_only]; lia.
+    - intros s. unfold sumQ. cbn [fold_right]. lia.
+  Qed.
+
+  (* no proper prefix of the selected inputs covers outputs + fee *)
+  Theorem lf_minimal_top cs offered sc st0 st' :
+    scenario_wf offered sc -> distinct_outpoints offered sc ->
+    initial_state min_fee sc = (st0, Done tt) -> coin (st_in st0) < coin (st_out st0) ->
+    add_inputs_from min_fee ffi current LargestFirst cs offered sc = (st', Done tt) ->
+    forall k, (k < length (st_trace st'))%nat ->
+      let before := imap_of_list (sc_pre sc) in
+      let prefix := added_utxos offered (firstn k (st_trace st')) in
+      exists fk, required_fee min_fee ffi before prefix = Ok fk /\ ~ covers_coin sc (before ++ prefix) fk.
+  Proof.
+    intros Hwf Hd E0 Hlt H k Hk.
+    destruct (sound_setup _ _ _ Hwf Hd E0) as [it0 [ot0 [f0 [Hst0 [Hf [Qi0 [Qo0 I0]]]]]]]. cbn zeta in *.
+    destruct (lf_top_unfold _ _ _ _ _ _ E0 Hlt H) as [[_ [_ Hr]]|[_ [r' [Hlf Hr]]]]; [discriminate Hr|].
+    destruct r' as [aidx'| | | |]; cbn [ob] in Hr; try discriminate Hr.
+    destruct (largest_first_minimal ffi offered (proj1 Hwf) _ _ _ offered (fun _ _ E => E) _ _ _ _ _ I0 Hlf)
+      as [taken [Htr [Hmin _]]].
+    subst st0. cbn [st_trace app] in Htr. rewrite Htr in *.
+    destruct (Hmin k Hk) as [fk [Hfk Hltk]]. cbn [st_inputs st_in st_out] in *.
+    exists (f0 + fk). split.
+    - unfold required_fee. rewrite Hf. cbn [bind]. rewrite Hfk. reflexivity.
+    - unfold covers_coin, covers_q, supply. rewrite map_app, sumQ_app.
+      specialize (Qi0 ByCoin). specialize (Qo0 ByCoin).
+      replace (demand ByCoin sc (f0 + fk)) with (demand ByCoin sc f0 + fk) by (unfold demand; cbn [coin_only]; lia).
+      cbn [coin_only] in Hltk. lia.
+  Qed.
+
+  Lemma filter_all {A} (f : A -> bool) l : (forall x, In x l -> f x = true) -> filter f l = l.
+  Proof. induction l as [|x l IH]; cbn; intros H; [reflexivity|]. rewrite (H x (or_introl eq_refl)). f_equal. apply IH. auto. Qed.
+
+  Lemma added_seq offered : added_utxos offered (seq 0 (length offered)) = offered.
+  Proof.
+    unfold added_utxos.
+    assert (G : forall pre l : list utxo, flat_map (fun i => match nth_error (pre ++ l) i with Some u => [u] | None => [] end)
+                                       (seq (length pre) (length l)) = l).
+    { intros pre l. revert pre. induction l as [|x l IH]; intros pre; cbn [length seq flat_map]; [reflexivity|].
+      rewrite nth_error_app2 by lia. rewrite Nat.sub_diag. cbn [nth_error app]. f_equal.
+      specialize (IH (pre ++ [x])). rewrite <- app_assoc in IH. cbn [app] in IH.
+      rewrite app_length in IH. cbn [length] in IH. rewrite Nat.add_1_r in IH. exact IH. }
+    apply (G [] offered).
+  Qed.
+
+  Lemma added_perm offered l1 l2 : Permutation l1 l2 -> Permutation (added_utxos offered l1) (added_utxos offered l2).
+  Proof.
+    unfold added_utxos. induction 1; cbn [flat_map].
+    - reflexivity.
+    - apply Permutation_app_head. assumption.
+    - rewrite !app_assoc. apply Permutation_app_tail. apply Permutation_app_comm.
+    - eapply Permutation_trans; eauto.
+  Qed.
+
+  (* insufficiency is reported only after every offered UTxO has been added, and they do not cover outputs + fee *)
+  Theorem lf_complete_top cs offered sc st0 st' :
+    scenario_wf offered sc -> distinct_outpoints offered sc ->
+    initial_state min_fee sc = (st0, Done tt) -> coin (st_in st0) < coin (st_out st0) ->
+    add_inputs_from min_fee ffi current LargestFirst cs offered sc = (st', Insufficient) ->
+    let before := imap_of_list (sc_pre sc) in
+    let added := added_utxos offered (st_trace st') in
+    Permutation added offered /\
+    exists fee, required_fee min_fee ffi before added = Ok fee /\ ~ covers_coin sc (before ++ offered) fee.
+  Proof.
+    intros Hwf Hd E0 Hlt H.
+    destruct (sound_setup _ _ _ Hwf Hd E0) as [it0 [ot0 [f0 [Hst0 [Hf [Qi0 [Qo0 I0]]]]]]]. cbn zeta in *.
+    destruct (lf_top_unfold _ _ _ _ _ _ E0 Hlt H) as [[_ [_ Hr]]|[_ [r' [Hlf Hr]]]]; [discriminate Hr|].
+    destruct r' as [aidx'| | | |]; cbn [ob] in Hr; try discriminate Hr.
+    destruct (largest_first_complete ffi offered (proj1 Hwf) _ _ _ offered (fun _ _ E => E) _ _ _ _ I0 Hlf)
+      as [Htr [I' Hunc]].
+    subst st0. cbn [st_trace app] in Htr.
+    assert (Hperm : Permutation (st_trace st') (seq 0 (length offered))).
+    { rewrite Htr. unfold lf_relevant.
+      apply Permutation_trans with (stable_sort (key_of ByCoin offered) (filter (has_key ByCoin offered) (seq 0 (length offered)))).
+      - apply Permutation_sym, Permutation_rev.
+      - eapply Permutation_trans; [apply stable_sort_perm|].
+        rewrite filter_all; [reflexivity|]. intros x Hx. apply has_key_coin. apply in_seq in Hx. lia. }
+    assert (Hadded : Permutation (added_utxos offered (st_trace st')) offered).
+    { rewrite <- (added_seq offered) at 2. apply added_perm. exact Hperm. }
+    split; [exact Hadded|].
+    destruct I' as [_ [fees [Ifee Iout]] Iq _ _ _].
+    exists (f0 + fees). split.
+    - unfold required_fee. rewrite Hf. cbn [bind]. rewrite Ifee. reflexivity.
+    - unfold covers_coin, covers_q, supply. rewrite map_app, sumQ_app.
+      rewrite <- (sumQ_perm ByCoin _ _ (Permutation_map u_val Hadded)).
+      specialize (Qi0 ByCoin). specialize (Qo0 ByCoin). specialize (Iq ByCoin). specialize (Iout ByCoin).
+      replace (demand ByCoin sc (f0 + fees)) with (demand ByCoin sc f0 + fees) by (unfold demand; cbn [coin_only]; lia).
+      cbn [coin_only] in Iout. lia.
+  Qed.
 End Sound.
